@@ -143,7 +143,16 @@ EXTRA = {
  'C05': dict(drop=[' Resynchronisation over whole streams is not decided.'],
              text=' Resynchronisation is a finite case analysis over receiver configurations (idle, fresh, mid-frame, after-escape) whose '
                   'every step is a proven clause: differing markers - a start marker from any state gives the fresh configuration (delivery '
-                  'from the first frame); START == STOP and the legacy receiver - delivery from the second frame at the latest.'),
+                  'from the first frame); START == STOP and the legacy receiver - delivery from the second frame at the latest. '
+                  'Stream level (c05_streams): both receivers are interpreted one byte at a time with concrete control and symbolic '
+                  'bytes (CRC-8 uninterpreted, f(x,x) = 0 from C17) into a memoised symbolic transition system; garbage prefixes of 0..3 '
+                  'bytes in all byte classes, truncated frames, frames with one byte replaced by each class, frames 1..3 bytes too long, '
+                  'each followed by good frames, for the v1 / v0 / symbolic / legacy alphabets and buffers of 2..8 bytes, are walked '
+                  'against a reference reader that knows only the property: the good frame is delivered intact exactly on its last byte '
+                  '(from the second at the latest when the markers coincide), nothing else is delivered unless those bytes are a complete '
+                  'frame on that path, every status is the one the property names, the byte that does not fit gives OVERFLOW. Streams '
+                  'longer than these families are covered by the per-transition clauses only.',
+             tech='; stream families as DAGs walked through the memoised symbolic transition system of the interpreted receiver'),
  'C08': dict(drop=[' Byte-exact copied contents and comparison signs are not decided.'],
              tech='; byte-identity analysis on small concrete sizes with symbolic contents (byte-granular memory, exact lane arithmetic)',
              text=' Contents (c08_content): for n = 0..9 and the word-path thresholds, every alignment and every overlap offset, the bytes '
@@ -171,7 +180,8 @@ EXTRA = {
                   'bytes per group, tails of exactly 1 and 2, length 4*ceil(size/3); base64_decode stops at the first non-alphabet symbol P = '
                   '4Q+k and produces 3Q + max(k-1, 0) bytes; the url-safe variants visit every position once and map only +/- and //_ ; the '
                   'decoder admission predicate accepts each whole alphabet class and rejects the padding.',
-             note=' std::string members are summarised (length cell, exact character block).'),
+             note=' std::string members are summarised (length cell, exact character block). The byte lanes of the fixed-width hex '
+                  'helpers are decided by a bit-lane evaluation (c18_lanes) that does not depend on how the lanes are addressed.'),
 }
 for _pid, _e in EXTRA.items():
     _c = CHECKS[_pid]
